@@ -248,6 +248,24 @@ def r19_4(ck: Check) -> None:
         ck.violated("R19.4", construct, "self-connection handling: %s" % [e.describe()[:160] for e in add + dis], h.fi.loc)
 
 
+def r19_6(ck: Check, rule: str = "R19.6") -> None:
+    """only IPv4-mapped announced addresses are stored, as dotted quads (they are later handed to an AF_INET connect outside any catch-all)"""
+    h = ck.summ(CRP + ".handle_peers_message_received", 0)
+    sp = Spec(h, ("self", "header", "message"), forall=[("ap", "message.peers")])
+    mapped = sp.term("ap.ip_address.ipv4_mapped")
+    host = sp.term("ap.ip_address.ipv4_mapped.exploded")
+    dmap = sp.term("self.local_peer.network_manager.disconnected_peers")
+    st = [e for e in h.events if e.kind == "store" and e.term[0] == "s" and e.term[1] == dmap]
+    construct = "handle_peers_message_received: an announced peer is recorded only if its address is IPv4-mapped, under that IPv4 host"
+    notnone = ("cmp", "isnot", mapped, C(None))
+    if len(st) == 1 and st[0].term[2][0] == "tuple" and st[0].term[2][1][0] == host and notnone in [c.term for c in st[0].pc] \
+            and st[0].value is not None and st[0].value[0] == "call" and st[0].value[2] and st[0].value[2][0] == host:
+        ck.ok(rule, construct, "", st[0].loc)
+    else:
+        ck.violated(rule, construct, "a peer-supplied address that is not a plain IPv4 host reaches the reconnect step, whose connect call runs outside "
+                    "the per-connection catch-all and ends the network loop when it raises: %s" % [e.describe()[:200] for e in st], h.fi.loc)
+
+
 def r19_5(ck: Check) -> None:
     q = "skepticoin.networking.disk_interface.DiskInterface.write_peers"
     atomic_replace(ck, "R19.5", q, "PEERS_JSON_FILE", "the peer file is replaced atomically")
@@ -292,4 +310,5 @@ def check(ck: Check) -> None:
     ck.run("R19.3", "back-off and give-up", lambda: r19_3(ck))
     ck.run("R19.4", "self-connection", lambda: r19_4(ck))
     ck.run("R19.5", "peers file", lambda: r19_5(ck))
+    ck.run("R19.6", "announced addresses are sanitised", lambda: r19_6(ck))
     ck.assume("socket behaviour and clock progressions are not modelled; thread interleavings are not analysed (the maps are only touched by the network thread)")
